@@ -87,5 +87,33 @@ def execute(ops, ctx):
                                  "cat": meta["cat"], "build": bname, "gomaxprocs": gmp})
             if len(samples) < 6:
                 samples.append({"build": bname, "gomaxprocs": gmp, "op": lines[len(samples) * 7 % len(lines)][:200]})
+    # the derived parameters themselves (perRound, minSplitSize, maxGoroutines) vs RSV.Model.Options.derive, per GOMAXPROCS
+    import subprocess, random
+    rng = random.Random(ctx["seed"])
+    flags = ["-", "ag=1000", "ag=4096", "ag=20000", "ag=40000", "ag=65536", "ag=131072", "ag=1000000", "ms=1", "ms=100000",
+             "ag=40000,ms=20000", "ag=131072,ms=60000", "g=1", "g=3", "g=1000", "avx2-", "gfni-,avxgfni-", "gfni-,avxgfni-,ag=40000",
+             "nosimd,ag=50000", "ag=50000,ms=500", "g=5,ag=300000", "gfni-,avxgfni-,avx2-,g=100", "ag=3000", "ag=2049,ms=1024"]
+    exe = os.path.join(C.BIN, "harness_default")
+    for gmp in ["1", "2", "5", "16"]:
+        env = dict(os.environ, GOMAXPROCS=gmp)
+        cpu = subprocess.run([exe], input="cpu\n", text=True, capture_output=True, env=env).stdout.split()
+        if len(cpu) < 6:
+            continue
+        pre = " ".join(cpu[:5]) + " " + ",".join(cpu[5:])
+        ol = [f"opts {pre} {d} {p} {f}" for d in [1, 2, 5, 10, 11, 12, 20, 50, 200] for p in [1, 2, 3, 4, 10, 11, 14, 30] if d + p <= 256 for f in flags]
+        if ctx["tier"] == "quick":
+            ol = rng.sample(ol, 500)
+        go = C.run_ops(exe, ol, env=env)
+        le = [C.split_flags(x)[0] for x in C.run_ops(ctx["driver"], ol)]
+        for o, g, l in zip(ol, go, le):
+            evals += 1
+            dist[f"opts/gomaxprocs={gmp}"] = dist.get(f"opts/gomaxprocs={gmp}", 0) + 1
+            if g and g.startswith("ok"):
+                nontriv.add(("opts", gmp, o))
+                f = g.split()
+                if int(f[1]) < 1 or int(f[2]) < 1 or int(f[3]) < 1:
+                    mism.append({"kind": "non-positive-derived-parameter", "ops": [o], "go": g, "model": l, "cat": "opts", "gomaxprocs": gmp})
+            if g != l:
+                mism.append({"kind": "go-vs-model", "ops": [o], "go": g, "model": l, "cat": "opts", "gomaxprocs": gmp})
     return {"evaluations": evals, "nontrivial": nontriv, "mismatches": mism, "samples": samples, "dist": dist,
             "extra": {"builds": [b for b, _ in BUILDS], "option_rows": len(OPTMATRIX)}}
